@@ -632,13 +632,62 @@ class Opa:
             if rv['ak'] == 'adt':
                 return ('variant', rv['adt'], rv['vidx'], ops, rv['variant'])
             if rv['ak'] == 'closure':
+                eta = self.eta_capture(rv['def'])
+                if eta is not None and eta < len(ops):
+                    # `|a, b| f(a, b)` around a captured closure f is f itself (eta-reduction): rules see the user closure, not a wrapper
+                    inner = ops[eta]
+                    while inner is not None and inner[0] == 'ref':
+                        inner = inner[1] if isinstance(inner[1], tuple) else inner
+                        if inner[0] == 'ref' and not isinstance(inner[1], tuple):
+                            break
+                    if inner is not None and inner[0] in ('param', 'closure', 'fn', 'field'):
+                        return inner
                 return ('closure', rv['def'], ops)
             if rv['ak'] == 'array':
                 return ('call', 'array', ops)
             return TOP
         return TOP
 
+    def eta_capture(self, cname):
+        """index of the capture f if the closure body is exactly `f(p1, .., pn)` with its own parameters in order, else None"""
+        memo = self.__dict__.setdefault('_eta', {})
+        if cname in memo:
+            return memo[cname]
+        memo[cname] = None
+        body = self.facts.bodies.get(cname)
+        if body is None or len(body.blocks) > 6 or self.cfg(body).back_edges():
+            return None
+        calls = list(body.calls())
+        if len(calls) != 1 or (calls[0][1].get('callee') or '') not in FN_CALLS:
+            return None
+        try:
+            r = self.run(cname, None, {'key': 'eta'}, self.inline_depth)     # depth limit reached: nothing is inlined
+        except Exception:
+            return None
+        ret = r.ret
+        known_closure = ret is not None and ret[0] == 'call' and ret[1] in self.facts.bodies and self.facts.bodies[ret[1]].is_closure()
+        if ret is None or ret[0] != 'call' or (ret[1] not in FN_CALLS and not known_closure) or len(ret[2]) != 2 or ret[2][1][0] != 'tuple':
+            return None
+        f = ret[2][0]
+        while f is not None and f[0] in ('ref', 'mut') and isinstance(f[1], tuple):
+            f = f[1]
+        if f is None or f[0] != 'param' or not f[1].startswith('cap:'):
+            return None
+        params = [('param', body.local_name(l) or '_%d' % l) for l in body.arg_locals()[1:]]
+        if list(ret[2][1][1]) != params:
+            return None
+        caps = body.d.get('captures', [])
+        nm = f[1][4:].lstrip('*&')
+        for i, c in enumerate(caps):
+            if c.lstrip('*&') == nm:
+                memo[cname] = i
+        return memo[cname]
+
     def binop(self, op, a, b):
+        if const_int(a) and not const_int(b) and op in ('Eq', 'Ne', 'Lt', 'Le', 'Gt', 'Ge'):
+            # canonical orientation of comparisons with a constant: the constant on the right
+            a, b = b, a
+            op = {'Lt': 'Gt', 'Gt': 'Lt', 'Le': 'Ge', 'Ge': 'Le'}.get(op, op)
         if const_int(a) and const_int(b):
             x, y = a[1], b[1]
             try:
